@@ -15,7 +15,8 @@ generator function).  It never invents, alters (other than dropping the path fie
   batch      at most one event is handed out per call of events() (any split of a batch into single deliveries);
   delay      (id-stable sides only) an event may be held back for 1-3 further calls of events();
   perm       (id-stable sides only) the deliverable events of one call are handed out in a random order;
-  drop_path  the path field of a copy is removed (only path-style providers and filtered streams carry one).
+  drop_path  the path field of a copy is removed (only path-style providers and filtered streams carry one);
+  idless_dir_delete  folder deletions are delivered without id, with their path (MockProvider's dropbox switch).
 Flush rule (DESIGN §7 E-10): the mangler never answers "no events" while it still holds one - if nothing is
 due, the oldest held event is released.  The engine therefore cannot go quiet with undelivered events, so no
 event is delayed across a drain; delays and permutations stay inside the window between two drains.
@@ -109,6 +110,7 @@ PLANS = [
     ("dup+batch", dict(dup=True, batch=True)),
     ("drop_path", dict(drop_path=True, dup=True)),
     ("walks", dict()),
+    ("idless_dir_delete", dict(idless_dir_delete=True, dup=True)),
     ("walks+dup", dict(dup=True)),
     ("delay", dict(delay=True)),
     ("perm", dict(perm=True)),
@@ -123,6 +125,10 @@ def _add_walks(rng, sched, p=0.25):
         out.append(a)
         if a[0] in ("user", "sync", "intake") and rng.random() < p:
             out.append(["hook", "walk", rng.choice([0, 1])])
+        elif a[0] == "drain" and rng.random() < 0.5:
+            out.append(["hook", "walk_quiet", rng.choice([0, 1])])
+    out.append(["drain"])
+    out.append(["hook", "walk_quiet", rng.choice([0, 1])])
     return out
 
 
@@ -189,6 +195,10 @@ def run_one(case, monitor, mangle):
             eng.cs.state._punt_secs = (ps, ps)
         if not mangle:
             return
+        if case["mangle"].get("idless_dir_delete"):
+            # dropbox style: folder deletions arrive without id (MockProvider's own switch); EventManager resolves them by path
+            for side in (0, 1):
+                world.provs[side]._oidless_folder_trash_events = True
         for side in (0, 1):
             m = Mangler(side, world.raw[side]["events"], fl.oip[side], case["mangle"], case["mangle"]["seed"])
             world.provs[side].events = m.events
@@ -202,6 +212,23 @@ def run_one(case, monitor, mangle):
             mg.setdefault("walks", 0)
             mg["walks"] += 1
     hooks["walk"] = walk
+
+    def walk_quiet(eng, world, args):
+        """a full walk of a side while the engine is quiet must leave it quiet: every walk event equals the stored entry"""
+        if not mangle or eng.busy():
+            return
+        side = args[0]
+        em = eng.cs.emgrs[side]
+        em.need_walk = True
+        eng.intake(side)
+        mg["quiet_walks"] = mg.get("quiet_walks", 0) + 1
+        n = eng.cs.smgr.changeset_len
+        if n:
+            pend = []
+            for e in list(eng.cs.state.changes)[:3]:
+                pend.append((e[0].path, e[1].path))
+            mg.setdefault("walk_woke", []).append((side, n, pend))
+    hooks["walk_quiet"] = walk_quiet
     c = dict(case)
     if not mangle:
         c["schedule"] = _strip_hooks(case["schedule"])
@@ -284,6 +311,8 @@ def run_pair(case, monitor):
         problems.append(("monitor", EC.describe(man)))
     if ref.verdict == [] and man.verdict == [] and ref.final_views != man.final_views:
         problems.append(("views", "final trees of the mangled run differ from the reference run"))
+    if mstats.get("walk_woke"):
+        problems.append(("walk", "a full walk of a synchronised tree made entries pending again: %r" % (mstats["walk_woke"][:2],)))
     extra = multiset_minus(man_eff, ref_eff)
     missing = multiset_minus(ref_eff, man_eff)
     # window form: the trees do not change while the engine works, so the set of tree-changing calls must be
